@@ -13,7 +13,7 @@ s = open(p).read()
 old = old.encode().decode("unicode_escape"); new = new.encode().decode("unicode_escape")
 assert s.count(old) >= 1, "pattern not found"
 open(p, "w").write(s.replace(old, new, 1))
-t = subprocess.run(["/venv/bin/python", "-m", "pytest", "-q", "-p", "no:cacheprovider", "-x"], cwd=wt, capture_output=True, text=True)
+t = subprocess.run(["/venv/bin/python", "-m", "pytest", "-q", "-p", "no:cacheprovider", "-x"], cwd=wt, capture_output=True, text=True, env=dict(os.environ, PYTHONPATH=wt + "/src"))
 print("pytest:", t.stdout.strip().splitlines()[-1])
 env = dict(os.environ, VERIF_REPO=wt)
 for pr in props.split(","):
